@@ -185,6 +185,9 @@ static void stopUrlFetcher() {
 	usim::api_leave();
 	delete f->_thread;
 	f->_thread = NULL;
+	// the thread is only ever started by the constructor: the next run gets a fresh instance
+	URLFetcher::_instance = NULL;
+	delete f;
 }
 
 static void createInterp(const std::string& actor, const js::Value& op) {
